@@ -39,7 +39,10 @@ def run(ctx, factor):
         for k in range(ctx.budget(6, 60) * factor):
             nsec = g.int(1, 3)
             names = [".text", ".text2", ".init"][:nsec]
-            objs.append((objfuzz.assemble(ctx.scratch, [(n, objfuzz.random_bytes(g, g.int(8, 120))) for n in names], name="o%d" % k), names))
+            secs = [(n, objfuzz.random_bytes(g, g.int(8, 120))) for n in names]
+            if nsec > 1 and g.chance(0.5):
+                secs[1] = (secs[1][0], list(secs[0][1]))      # two sections with identical code: identical lines
+            objs.append((objfuzz.assemble(ctx.scratch, secs, name="o%d" % k), names))
         if ctx.tier == "thorough":
             for f in sorted(glob.glob(os.path.join(impl.REPO, "tests", "binary", "*"))):
                 if os.path.getsize(f) < 400000:
